@@ -11,6 +11,7 @@ import (
 	"strconv"
 	"strings"
 	"sync"
+	"sync/atomic"
 
 	"verif/internal/pdfdoc"
 	"verif/internal/pdfw"
@@ -233,6 +234,8 @@ func c10OptDoc() (string, error) {
 			if p >= 2 {
 				pg = append(pg, pdfdoc.Placed{X: 72, Y: 760, Size: 10, Text: "Quarterly Report"})
 			}
+			// a chapter heading in large type: the outline of a selection refers to the source pages
+			pg = append(pg, pdfdoc.Placed{X: 72, Y: 690, Size: 20, Text: fmt.Sprintf("Chapter b%dl0", p)})
 			// page 3 is a real two-column page (12 lines in each column, enough for the automatic layout test to see it);
 			// the other pages have three body lines
 			const labels = "123456789abcdefghijklmnopqrstuvwxyz"
@@ -309,6 +312,7 @@ func optTokens(s string) (toks []string, pages []int) {
 	return
 }
 
+var c10TocSeen atomic.Int64
 var wholeMu sync.Mutex
 var wholeByOpts = map[string]string{}
 
@@ -369,6 +373,22 @@ func c10SelectOpts(i int, raw []byte) Result {
 	sel := map[int]bool{}
 	for _, p := range c.Expected.Pages {
 		sel[p] = true
+	}
+	if len(c.Opts) == 0 && (c.Via == "" || c.Via == "text") {
+		// the outline of the selection: every entry names the source page its heading stands on, a selected one
+		if doc, _, derr := apply(tabula.Open(path), c.Calls).Document(); derr == nil {
+			for _, en := range doc.TableOfContents() {
+				m := optTokRe.FindStringSubmatch(en.Text)
+				if m == nil || m[2] == "" {
+					continue
+				}
+				if src := int(m[2][0] - '0'); src != en.Page || !sel[en.Page] {
+					return mk("pagenumber-outline", fmt.Sprintf("the outline entry %q of the selection %v refers to page %d; the heading stands on source page %d", en.Text, c.Expected.Pages, en.Page, src), en.Page)
+				}
+				c10TocSeen.Add(1)
+			}
+			r.Evals++
+		}
 	}
 	wt, wp := optTokens(whole)
 	var want []string
@@ -699,7 +719,11 @@ func c10(mode, in, out string) error {
 	case "select":
 		return runCases(in, out, c10Select)
 	case "selectopts":
-		return runCases(in, out, c10SelectOpts)
+		err := runCases(in, out, c10SelectOpts)
+		if err == nil && c10TocSeen.Load() == 0 {
+			return fmt.Errorf("MACHINERY: no outline entry was seen for any selection (the chapter headings of the option document are not detected as headings)")
+		}
+		return err
 	case "life":
 		return runCasesSerial(in, out, c10Life)
 	case "lifefmt":
